@@ -74,6 +74,16 @@ sb_error_t sb_light_program_init_from_binary_file_in_memory(
 
 sb_error_t sb_i_light_program_init_from_bytes(sb_light_program_t* program, uint8_t* buf, size_t nbytes, sb_bool_t owned)
 {
+    if (nbytes == 0) {
+        /* an empty program, whichever way it was loaded: there is nothing to
+         * view and nothing worth owning */
+        SB_CHECK(sb_light_program_init_empty(program));
+        if (owned) {
+            sb_free(buf);
+        }
+        return SB_SUCCESS;
+    }
+
     if (owned) {
         SB_CHECK(sb_buffer_init_from_bytes(&program->buffer, buf, nbytes));
     } else {
